@@ -26,32 +26,28 @@ func Glob(pattern, input string, opts ...Option) bool {
 	for _, o := range opts {
 		o(&g)
 	}
-	i := 0
-	j := 0
-	asterisk := false
-	for i < len(pattern) {
-		if pattern[i] == '*' {
-			asterisk = true
+	// i indexes pattern, j indexes input. star is the position of the most
+	// recent '*' in pattern and mark the input position it is currently
+	// assumed to extend to; on a mismatch the '*' absorbs one more byte.
+	i, j := 0, 0
+	star, mark := -1, 0
+	for j < len(input) {
+		switch {
+		case i < len(pattern) && pattern[i] == '*':
+			star, mark = i, j
 			i++
-		} else {
-			if j >= len(input) {
-				return false
-			}
-			match := pattern[i] == input[j]
-			if !asterisk && !match {
-				return false
-			}
-			if match {
-				i++
-			}
-			if asterisk && match {
-				asterisk = false
-			}
+		case i < len(pattern) && pattern[i] == input[j]:
+			i++
 			j++
-		}
-		if j >= len(input) {
-			break
+		case star >= 0:
+			mark++
+			i, j = star+1, mark
+		default:
+			return false
 		}
 	}
-	return i == len(pattern) && (asterisk || j == len(input))
+	for i < len(pattern) && pattern[i] == '*' {
+		i++
+	}
+	return i == len(pattern)
 }
